@@ -238,3 +238,27 @@ M("c17-tree-drops-odd", "C17", "R17.3", MT, "            new_list.append(MerkleN
   "            new_list.append(MerkleNode(chunk[0].index, (chunk[0], chunk[1])))\n        else:  # implied: len(chunk) == 1\n            pass")
 M("c17-merkle-compare-prefix", "C17", "R17.1", CONS, "    if block.header.summary.merkle_root_hash != calc_merkle_root_hash(block.transactions):",
   "    if block.header.summary.merkle_root_hash[:4] != calc_merkle_root_hash(block.transactions)[:4]:")
+
+# ----------------------------------------------------------------------------------------------- C08
+M("c08-select-swap-cols", "C08", "R08.1", BS,
+  "                \"\"\"select height, previous_block_hash, merkle_root_hash, timestamp, target, nonce,\n                   pow_summary_hash, pow_chain_sample, pow_block_hash, block_hash",
+  "                \"\"\"select height, previous_block_hash, pow_block_hash, timestamp, target, nonce,\n                   pow_summary_hash, pow_chain_sample, merkle_root_hash, block_hash")
+M("c08-drop-seq-sort", "C08", "R08.1", BS, "                            [v for k, v in sorted(builder.inputs.items(), key=lambda i: i[0])],", "                            [v for k, v in builder.inputs.items()],")
+M("c08-nullify-write-only", "C08", "R08.2", BS, "                                previous_block_hash=zeroify_nulls(previous_block_hash),", "                                previous_block_hash=previous_block_hash,")
+M("c08-locator-single-sha", "C08", "R08.3", BS, "                transaction_hash = sha256d(transaction_bytes)", "                transaction_hash = sha256d(transaction_bytes)[::-1]")
+M("c08-drop-order-by", "C08", "R08.4", BS, "                   from chain order by height\"\"\"", "                   from chain\"\"\"")
+M("c08-order-desc", "C08", "R08.4", BS, "                   from chain order by height\"\"\"", "                   from chain order by height desc\"\"\"")
+M("c08-commit-early", "C08", "R08.5", BS,
+  "        cur.executemany(\"insert or ignore into transaction_locator values (?,?)\", transactions_param)\n",
+  "        cur.execute('COMMIT')\n        cur.executemany(\"insert or ignore into transaction_locator values (?,?)\", transactions_param)\n")
+M("c08-locator-replace", "C08", "R08.6", BS, "        cur.executemany(\"insert or ignore into transaction_locator values (?,?)\", transactions_param)",
+  "        cur.executemany(\"insert or replace into transaction_locator values (?,?)\", transactions_param)")
+M("c08-clear-before-write", "C08", "R08.5", BS, "                self.write_blocks_to_disk(self.write_buffer)\n                self.write_buffer.clear()",
+  "                pending = list(self.write_buffer)\n                self.write_buffer.clear()\n                self.write_blocks_to_disk(pending)")
+M("c08-tuple-swap-writer", "C08", "R08.1", BS, "                block.header.pow_evidence.summary_hash,\n                block.header.pow_evidence.chain_sample,", "                block.header.pow_evidence.chain_sample,\n                block.header.pow_evidence.summary_hash,")
+M("c08-value-index-swap", "C08", "R08.1", BS, "                        nullify_zeros(input.output_reference.hash),\n                        input.output_reference.index,", "                        nullify_zeros(input.output_reference.hash),\n                        seq,")
+M("c08-outputs-seq-from-one", "C08", "R08.1", BS, "                for seq, output in enumerate(transaction.outputs):", "                for seq, output in enumerate(transaction.outputs[1:]):")
+M("c08-reload-validating-head", "C08", "R08.4", "skepticoin/scripts/utils.py", "    for block in DefaultBlockStore.instance.read_blocks_from_disk():\n        try:\n            coinstate = coinstate.add_block_no_validation(block)",
+  "    for block in DefaultBlockStore.instance.read_blocks_from_disk():\n        try:\n            if block.height % 2 == 0:\n                continue\n            coinstate = coinstate.add_block_no_validation(block)")
+M("c08-block-hash-from-summary", "C08", "R08.3", BS, "        for block in blocks:\n            block_hash = block.hash()", "        for block in blocks:\n            block_hash = block.header.summary.hash()")
+M("c08-pubkey-raw", "C08", "R08.1", BS, "                        output.public_key.serialize()\n", "                        output.public_key.public_key\n")
